@@ -381,6 +381,26 @@ pub fn with_groups(e: &Expression, r: &mut Rng, one_in: u64) -> Expression {
     }
 }
 
+/// Spellings a textual templating scheme could use for a hole named after the device, the policy body or
+/// another part of the skeleton: a program assembled by string replacement rewrites user text that
+/// happens to spell one of its own placeholders. syntaxes x names, generated (not a hand-picked list).
+pub fn placeholder_family() -> Vec<String> {
+    let names = [
+        "mdt", "MDT", "Mdt", "device", "DEVICE", "dev", "DEV", "path", "PATH", "mdt_path", "MDT_PATH", "devpath", "target", "0", "1", "policy", "POLICY", "body", "BODY", "policy_body", "options", "threads", "THREADS",
+        "definitions", "init", "initialization", "modules", "terminate", "now", "NOW",
+    ];
+    let mut v = vec![];
+    for n in names {
+        for (a, b) in [
+            ("{", "}"), ("{{", "}}"), ("${", "}"), ("$", ""), ("%(", ")s"), ("@", "@"), ("@@", "@@"), ("%", "%"), ("<", ">"), ("[", "]"), ("__", "__"), ("#{", "}"), ("<%", "%>"), ("{%", "%}"), ("$(", ")"), (":", ""), ("%{", "}"), ("~", "~"),
+            ("&", ";"), ("!", "!"), ("%lf3:", ""), ("@", ""), ("{:", "}"), ("#", "#"),
+        ] {
+            v.push(format!("{}{}{}", a, n, b));
+        }
+    }
+    v
+}
+
 // ---------------------------------------------------------------------------------------------
 // Text renderer (spec side)
 
